@@ -668,4 +668,29 @@ theorem concat_step {B L N U s n Bp a k c b : Nat} (ha : a < L) (hk : k < n) (hc
     · simp only [h1, if_true]; ring
     · simp only [h1, if_false]; ring
 
+/-- two steps (possibly of the loop nests of different operands) that write the
+same output element are at the same position along the axis; within one
+operand they are the same step -/
+theorem concat_didx_eq {B L N U s n hbv s' n' hbv' t t' : Nat} (hL : 0 < L) (hn : 0 < n) (hn' : 0 < n')
+    (hs : s + n ≤ N) (hs' : s' + n' ≤ N)
+    (ht : t < (concatMoves B L (L * N) U (L * s) n hbv).count)
+    (ht' : t' < (concatMoves B L (L * N) U (L * s') n' hbv').count)
+    (e : (concatMoves B L (L * N) U (L * s) n hbv).didx t = (concatMoves B L (L * N) U (L * s') n' hbv').didx t') :
+    s + t % (L * n) / L = s' + t' % (L * n') / L ∧ (s = s' → n = n' → t = t') := by
+  have ⟨f1, k1, _⟩ := concat_form hL hn ht
+  have ⟨f2, k2, _⟩ := concat_form hL hn' ht'
+  rw [f1, f2] at e
+  have ⟨a, b, c⟩ := comp3_inj (Nat.mod_lt _ hL) (show s + t % (L * n) / L < N by omega) (Nat.mod_lt _ hL)
+    (show s' + t' % (L * n') / L < N by omega) e
+  refine ⟨b, ?_⟩
+  intro es en
+  subst es; subst en
+  have r1 := Nat.div_add_mod (t % (L * n)) L
+  have r2 := Nat.div_add_mod (t' % (L * n)) L
+  have hk : t % (L * n) / L = t' % (L * n) / L := by omega
+  have hm : t % (L * n) = t' % (L * n) := by rw [← r1, ← r2, hk, a]
+  have r3 := Nat.div_add_mod t (L * n)
+  have r4 := Nat.div_add_mod t' (L * n)
+  rw [← r3, ← r4, c, hm]
+
 end Primitiv.Move
